@@ -877,44 +877,41 @@ fn cmd_panic(a: &Args) -> i32 {
             }
         }
         if mode == Mode::Token && n % 8 == 0 {
-            // directed scenario: destructor of a helper's rejected replacement inside the debt walk
-            let before = tp::DESTROY_IN_PAYALL.load(std::sync::atomic::Ordering::Relaxed);
-            let base = wl_panic::directed_destructor_in_debt_walk(None, exec_no);
-            let inside = tp::DESTROY_IN_PAYALL.load(std::sync::atomic::Ordering::Relaxed) - before;
-            runner::count("panic.directed.destructions_inside_debt_walk", inside);
-            for nth in 1..=base.counts[fault::K_DESTRUCTOR as usize] {
-                let o = wl_panic::directed_destructor_in_debt_walk(Some((fault::K_DESTRUCTOR, nth)), exec_no);
-                plans += 1;
-                runner::count("panic.plans.directed", 1);
-                if o.injected {
-                    fired += 1;
-                    if let Some(i) = fault::injection() {
-                        if i.in_payall {
-                            runner::count("panic.fired.inside_debt_walk", 1);
+            // directed scenario: destructor of a helper's rejected replacement inside the debt walk of a swap / compare_and_swap / rcu,
+            // on the fallback-only strategy and on the default strategy with 8 guards held by the helped reader
+            for (vi, w1op) in [wl_core::W::Swap, wl_core::W::Cas, wl_core::W::Rcu].into_iter().enumerate() {
+                for default_strategy in [false, true] {
+                    let run = |plan: Option<(u8, u64)>| {
+                        if default_strategy {
+                            wl_panic::directed_destructor_in_debt_walk_default(plan, exec_no, w1op)
+                        } else {
+                            wl_panic::directed_destructor_in_debt_walk(plan, exec_no, w1op)
                         }
+                    };
+                    let before = tp::DESTROY_IN_PAYALL.load(std::sync::atomic::Ordering::Relaxed);
+                    let base = run(None);
+                    let inside = tp::DESTROY_IN_PAYALL.load(std::sync::atomic::Ordering::Relaxed) - before;
+                    runner::count(if default_strategy { "panic.directed.default.destructions_inside_debt_walk" } else { "panic.directed.destructions_inside_debt_walk" }, inside);
+                    runner::count(&format!("panic.directed.destructions_inside_debt_walk.{:?}", w1op), inside);
+                    let _ = vi;
+                    for nth in 1..=base.counts[fault::K_DESTRUCTOR as usize] {
+                        let o = run(Some((fault::K_DESTRUCTOR, nth)));
+                        plans += 1;
+                        runner::count(if default_strategy { "panic.plans.directed.default" } else { "panic.plans.directed" }, 1);
+                        if o.injected {
+                            fired += 1;
+                            if let Some(i) = fault::injection() {
+                                if i.in_payall {
+                                    runner::count("panic.fired.inside_debt_walk", 1);
+                                    if default_strategy {
+                                        runner::count("panic.fired.inside_debt_walk.default_strategy", 1);
+                                    }
+                                }
+                            }
+                        }
+                        runner::with(|r| r.execs += 1);
                     }
                 }
-                runner::with(|r| r.execs += 1);
-            }
-            // the same on the default strategy, the reader holding 8 guards (unpaid debts in the node being helped)
-            let before = tp::DESTROY_IN_PAYALL.load(std::sync::atomic::Ordering::Relaxed);
-            let base = wl_panic::directed_destructor_in_debt_walk_default(None, exec_no);
-            let inside = tp::DESTROY_IN_PAYALL.load(std::sync::atomic::Ordering::Relaxed) - before;
-            runner::count("panic.directed.default.destructions_inside_debt_walk", inside);
-            for nth in 1..=base.counts[fault::K_DESTRUCTOR as usize] {
-                let o = wl_panic::directed_destructor_in_debt_walk_default(Some((fault::K_DESTRUCTOR, nth)), exec_no);
-                plans += 1;
-                runner::count("panic.plans.directed.default", 1);
-                if o.injected {
-                    fired += 1;
-                    if let Some(i) = fault::injection() {
-                        if i.in_payall {
-                            runner::count("panic.fired.inside_debt_walk", 1);
-                            runner::count("panic.fired.inside_debt_walk.default_strategy", 1);
-                        }
-                    }
-                }
-                runner::with(|r| r.execs += 1);
             }
         }
         plans += wl_panic::access_scenarios(exec_no);
